@@ -92,7 +92,12 @@ pub trait Metadata {
     fn duration(&self) -> Option<std::time::Duration> {
         const NANOS_PER_SEC: u64 = 1_000_000_000;
 
-        let sample_rate = u64::from(self.sample_rate());
+        // a sample rate of 0 is valid (for non-audio streams)
+        // but gives the stream no duration
+        let sample_rate = match u64::from(self.sample_rate()) {
+            0 => return None,
+            rate => rate,
+        };
 
         self.total_samples().map(|s| {
             std::time::Duration::new(
